@@ -6,81 +6,6 @@ open ScVerif.C09
 
 variable {ι μ : Type} [DecidableEq ι]
 
-/-- The kind agrees with the presence of a new value (true of every event a write publishes). -/
-def Shaped (c : Change ι μ) : Prop := c.kind = .remove ↔ c.new = none
-
-omit [DecidableEq ι] in
-theorem mkChange_shaped_some (i : ι) (k : Kind) (t : Nat) (o : Option μ) (v : μ) (hk : k ≠ .remove) :
-    Shaped (mkChange i k t o (some v)) := by
-  simp [Shaped, mkChange, hk]
-
-theorem stepOp_shaped (t : Nat) (items : List (ι × μ)) (op : Op ι μ) (c : Change ι μ)
-    (h : (stepOp t items op).2 = some c) : Shaped c := by
-  cases op with
-  | add i v =>
-    simp only [stepOp] at h
-    cases hl : items.lookup i with
-    | some o => rw [hl] at h; simp at h
-    | none => rw [hl] at h; simp at h; subst h; exact mkChange_shaped_some _ _ _ _ _ (by decide)
-  | update i v =>
-    simp only [stepOp] at h
-    cases hl : items.lookup i with
-    | none => rw [hl] at h; simp at h
-    | some o => rw [hl] at h; simp at h; subst h; exact mkChange_shaped_some _ _ _ _ _ (by decide)
-  | upsert i v =>
-    simp only [stepOp] at h
-    cases hl : items.lookup i with
-    | none => rw [hl] at h; simp at h; subst h; exact mkChange_shaped_some _ _ _ _ _ (by decide)
-    | some o => rw [hl] at h; simp at h; subst h; exact mkChange_shaped_some _ _ _ _ _ (by decide)
-  | delete i =>
-    simp only [stepOp] at h
-    cases hl : items.lookup i with
-    | none => rw [hl] at h; simp at h
-    | some o => rw [hl] at h; simp at h; subst h; simp [Shaped, mkChange]
-
-theorem apply_idem (c : Change ι μ) (V : View ι μ) : apply c (apply c V) = apply c V := by
-  funext j
-  by_cases h : j = c.id
-  · subst h; simp [apply_same]
-  · simp [apply_other _ _ h]
-
-/-- A STALE event — one whose effect the view already contains (`apply c V = V`), as happens when a
-subscriber snapshots between a commit and its publication — is harmless after `include`: whatever
-`include` forwards leaves the filtered view as it is. -/
-theorem include_stale (p : Option (Pred ι μ)) (V : View ι μ) (c : Change ι μ) (hs : Shaped c)
-    (hst : apply c V = V) :
-    match includeChange p c with
-    | some d => apply d (filterView p V) = filterView p V
-    | none => True := by
-  cases p with
-  | none => simpa [includeChange, filterView_none] using hst
-  | some f =>
-    have hV : V c.id = if c.kind = .remove then none else c.new := by
-      rw [← apply_same c V, hst]
-    have hf := filterView_apply (some f) V c.id
-    rw [hV] at hf
-    rcases c with ⟨ci, ck, ct, co, cn, cs, cl⟩
-    simp only [Shaped] at hs
-    simp only at hf hV
-    cases cn with
-    | none =>
-      have hk : ck = .remove := hs.mpr rfl
-      subst hk
-      simp only [if_true, filt] at hf
-      simp only [includeChange, Option.isSome_none, Bool.false_and]
-      cases hoi : (co.isSome && f ci co) with
-      | false => simp
-      | true =>
-        simp only [Bool.true_eq_false, if_false]
-        exact set_eq_self (by simpa using hf)
-    | some n =>
-      have hk : ck ≠ .remove := fun h => by simpa using hs.mp h
-      simp only [hk, if_false, filt, exclude] at hf
-      simp only [includeChange, Option.isSome_some, Bool.true_and]
-      cases hoi : (co.isSome && f ci co) <;> cases hni : f ci (some n) <;>
-        simp only [hni, Bool.not_true, Bool.not_false, if_true, if_false, Bool.false_eq_true] at hf <;>
-        simp <;> (try exact set_eq_self (by simp [hk, hf])) <;> (try exact set_eq_self (by simpa using hf))
-
 theorem subView_snoc (p : Option (Pred ι μ)) (seed : List (ι × μ)) (recv : List (Change ι μ))
     (c : Change ι μ) :
     subView p seed (recv ++ [c]) =
@@ -90,127 +15,175 @@ theorem subView_snoc (p : Option (Pred ι μ)) (seed : List (ι × μ)) (recv : 
   simp only [subView, List.filterMap_append, fold_append]
   cases hi : includeChange p c <;> simp [hi]
 
-/-- The invariant of the concurrent system (code as it is: `locked = true`). -/
+/-- `S` is, id by id, the filter of `V0` or the filter of `T`. -/
+def Near (p : Option (Pred ι μ)) (S V0 T : View ι μ) : Prop :=
+  ∀ i, S i = filterView p V0 i ∨ S i = filterView p T i
+
+omit [DecidableEq ι] in
+theorem Near_self {p : Option (Pred ι μ)} {S T : View ι μ} (h : Near p S T T) : S = filterView p T := by
+  funext i; rcases h i with h | h <;> exact h
+
+/-- one delivered event `c`, well formed at the published view `T`: `Near` is kept towards `apply c T` -/
+theorem Near_step (p : Option (Pred ι μ)) (S V0 T : View ι μ) (c : Change ι μ) (hc : WFChange T c)
+    (h : Near p S V0 T) :
+    Near p (match includeChange p c with | some d => apply d S | none => S) V0 (apply c T) := by
+  have hw := include_wf p hc
+  intro i
+  cases hi : includeChange p c with
+  | none =>
+    rw [hi] at hw
+    simp only at hw ⊢
+    rcases h i with h | h
+    · exact Or.inl h
+    · right; rw [h, hw]
+  | some d =>
+    rw [hi] at hw
+    simp only at hw ⊢
+    by_cases hid : i = c.id
+    · right
+      have := congrFun hw.2.2 d.id
+      rw [apply_same] at this
+      subst hid
+      rw [← hw.1, apply_same, this]
+    · have hid' : i ≠ d.id := by rw [hw.1]; exact hid
+      rw [apply_other d S hid']
+      rcases h i with h | h
+      · exact Or.inl h
+      · right; rw [h, filterView_apply, filterView_apply, apply_other c T hid]
+
+theorem deliver_wf (p : Option (Pred ι μ)) (S T : View ι μ) (c : Change ι μ) (hS : S = filterView p T)
+    (hc : WFChange T c) :
+    (match includeChange p c with | some d => apply d S | none => S) = filterView p (apply c T) := by
+  have hw := include_wf p hc
+  subst hS
+  cases hi : includeChange p c with
+  | none => rw [hi] at hw; simp only at hw ⊢; exact hw.symm
+  | some d => rw [hi] at hw; simp only at hw ⊢; exact hw.2.2
+
+/-- the events of one write: a well-formed history from the contents before to the contents after -/
+theorem stepOp_toList_spec (t : Nat) {items : List (ι × μ)} (hn : NodupKeys items) (op : Op ι μ) :
+    NodupKeys (stepOp t items op).1 ∧ WFHist (viewOf items) (stepOp t items op).2.toList ∧
+    fold (stepOp t items op).2.toList (viewOf items) = viewOf (stepOp t items op).1 := by
+  have hs := stepOp_spec t hn op
+  cases hev : (stepOp t items op).2 with
+  | none => rw [hev] at hs; exact ⟨hs.1, trivial, by rw [hs.2]; rfl⟩
+  | some c => rw [hev] at hs; exact ⟨hs.1, ⟨hs.2.1, trivial⟩, by simpa [fold] using hs.2.2⟩
+
+/-- The invariant of the concurrent system (code as it is: `locked = true`).  `T` is the PUBLISHED view:
+the contents as of the last published commit; the pending events lead from it to the contents.  For a
+registered subscriber `k` counts the pending events that were committed before it took its snapshot
+(they are in its seed and will reach it all the same): its view is, id by id, the filter of the
+snapshot `fold (pend.take k) T` or of the published view, and exactly the latter once `k = 0`. -/
 def SubInv (p : Option (Pred ι μ)) (s : Sys ι μ) : Prop :=
   NodupKeys s.items ∧
-  (∀ c, s.pend = some c → Shaped c ∧ apply c (viewOf s.items) = viewOf s.items) ∧
-  match s.sub with
-  | .idle => True
-  | .snapping seed => seed = itemSlice p s.items
-  | .listening seed recv =>
-    NodupKeys seed ∧
-    ∃ V, subView p seed recv = filterView p V ∧
-      match s.pend with
-      | none => V = viewOf s.items
-      | some c => apply c V = viewOf s.items ∧ (WFChange V c ∨ apply c V = V)
+  ∃ T : View ι μ, WFHist T s.pend ∧ fold s.pend T = viewOf s.items ∧
+    match s.sub with
+    | .idle => True
+    | .snapping seed => seed = itemSlice p s.items
+    | .listening seed recv =>
+      NodupKeys seed ∧ ∃ k, k ≤ s.pend.length ∧
+        Near p (subView p seed recv) (fold (s.pend.take k) T) T
 
 theorem SubInv_init (p : Option (Pred ι μ)) (items : List (ι × μ)) (hn : NodupKeys items) :
     SubInv p (Sys.init items) :=
-  ⟨hn, fun c h => by simp [Sys.init] at h, trivial⟩
-
-/-- delivering one event to a registered subscriber whose view is the filter of `V`, when the event is
-well formed at `V` or stale at `V`: the view becomes the filter of `apply c V` -/
-theorem deliver_step (p : Option (Pred ι μ)) (seed : List (ι × μ)) (recv : List (Change ι μ))
-    (V : View ι μ) (c : Change ι μ) (hv : subView p seed recv = filterView p V) (hs : Shaped c)
-    (hc : WFChange V c ∨ apply c V = V) :
-    subView p seed (recv ++ [c]) = filterView p (apply c V) := by
-  rw [subView_snoc]
-  rcases hc with hwf | hst
-  · have h := include_wf p hwf
-    cases hi : includeChange p c with
-    | none => rw [hi] at h; simp only; rw [hv, h]
-    | some d => rw [hi] at h; simp only; rw [hv, h.2.2]
-  · have h := include_stale p V c hs hst
-    rw [hst]
-    cases hi : includeChange p c with
-    | none => simp only; exact hv
-    | some d => rw [hi] at h; simp only; rw [hv, h]
+  ⟨hn, viewOf items, trivial, rfl, trivial⟩
 
 theorem sysStep_inv (p : Option (Pred ι μ)) (s : Sys ι μ) (st : Step ι μ) (h : SubInv p s) :
     SubInv p (sysStep true p s st) := by
   rcases s with ⟨items, pend, sub, t⟩
-  obtain ⟨hn, hG, hsub⟩ := h
-  simp only at hn hG hsub
+  obtain ⟨hn, T, hwf, hfold, hsub⟩ := h
+  simp only at hn hwf hfold hsub
   cases st with
   | commit op =>
-    cases pend with
-    | some c => exact ⟨hn, hG, hsub⟩
-    | none =>
-      have hs := stepOp_spec t hn op
-      have hG' : ∀ c, (stepOp t items op).2 = some c →
-          Shaped c ∧ apply c (viewOf (stepOp t items op).1) = viewOf (stepOp t items op).1 := by
-        intro c hc
-        rw [hc] at hs
-        refine ⟨stepOp_shaped t items op c hc, ?_⟩
-        rw [← hs.2.2, apply_idem]
-      cases sub with
-      | idle => exact ⟨hs.1, hG', trivial⟩
-      | snapping seed => exact ⟨hn, hG, hsub⟩
-      | listening seed recv =>
-        obtain ⟨hns, V, hv, hV⟩ := hsub
-        simp only at hV
-        subst hV
-        refine ⟨hs.1, hG', hns, viewOf items, hv, ?_⟩
-        simp only [sysStep, Option.isSome_none, Sub.isSnapping, Bool.and_false, Bool.or_false,
-          Bool.false_eq_true, if_false]
-        cases hev : (stepOp t items op).2 with
-        | none => rw [hev] at hs; simp only; rw [hs.2]
-        | some c => rw [hev] at hs; exact ⟨hs.2.2, Or.inl hs.2.1⟩
+    have hs := stepOp_toList_spec t hn op
+    have hwf' : WFHist T (pend ++ (stepOp t items op).2.toList) := by
+      rw [WFHist_append, hfold]; exact ⟨hwf, hs.2.1⟩
+    have hfold' : fold (pend ++ (stepOp t items op).2.toList) T = viewOf (stepOp t items op).1 := by
+      rw [fold_append, hfold]; exact hs.2.2
+    cases sub with
+    | idle => exact ⟨hs.1, T, hwf', hfold', trivial⟩
+    | snapping seed => exact ⟨hn, T, hwf, hfold, hsub⟩
+    | listening seed recv =>
+      obtain ⟨hns, k, hk, hnear⟩ := hsub
+      show SubInv p ⟨(stepOp t items op).1, pend ++ (stepOp t items op).2.toList, .listening seed recv, t + 1⟩
+      refine ⟨hs.1, T, hwf', hfold', hns, k, ?_, ?_⟩
+      · simp only [List.length_append]; omega
+      · simp only
+        rw [List.take_append_of_le_length hk]
+        exact hnear
   | publish =>
     cases pend with
-    | none => exact ⟨hn, hG, hsub⟩
-    | some c =>
-      refine ⟨hn, fun c' h' => by simp [sysStep] at h', ?_⟩
+    | nil => exact ⟨hn, T, hwf, hfold, hsub⟩
+    | cons c rest =>
+      obtain ⟨hc, hrest⟩ := hwf
+      refine ⟨hn, apply c T, hrest, hfold, ?_⟩
       cases sub with
       | idle => trivial
       | snapping seed => exact hsub
       | listening seed recv =>
-        obtain ⟨hns, V, hv, hap, hc⟩ := hsub
-        refine ⟨hns, apply c V, ?_, hap⟩
-        exact deliver_step p seed recv V c hv (hG c rfl).1 hc
+        obtain ⟨hns, k, hk, hnear⟩ := hsub
+        simp only [sysStep, Sub.deliver]
+        refine ⟨hns, ?_⟩
+        cases k with
+        | zero =>
+          refine ⟨0, Nat.zero_le _, ?_⟩
+          have hS := Near_self (by simpa using hnear : Near p (subView p seed recv) T T)
+          have := deliver_wf p _ T c hS hc
+          rw [subView_snoc, this]
+          intro i; exact Or.inr rfl
+        | succ k' =>
+          refine ⟨k', by simpa using hk, ?_⟩
+          rw [subView_snoc]
+          have := Near_step p _ _ T c hc hnear
+          simpa [List.take_succ_cons] using this
   | deleteNow i =>
     cases pend with
-    | some c => exact ⟨hn, hG, hsub⟩
-    | none =>
-      have hs := stepOp_spec t hn (.delete i)
+    | cons c rest => exact ⟨hn, T, hwf, hfold, hsub⟩
+    | nil =>
+      have hT : T = viewOf items := hfold
+      subst hT
+      have hs := stepOp_toList_spec t hn (.delete i)
       cases sub with
-      | idle => exact ⟨hs.1, fun c h' => by simp [sysStep, Sub.isSnapping] at h', trivial⟩
-      | snapping seed => exact ⟨hn, hG, hsub⟩
+      | idle => exact ⟨hs.1, _, trivial, rfl, trivial⟩
+      | snapping seed => exact ⟨hn, _, hwf, hfold, hsub⟩
       | listening seed recv =>
-        obtain ⟨hns, V, hv, hV⟩ := hsub
-        simp only at hV
-        subst hV
-        refine ⟨hs.1, fun c h' => by simp [sysStep, Sub.isSnapping] at h', hns, ?_⟩
-        simp only [sysStep, Option.isSome_none, Sub.isSnapping, Bool.and_false, Bool.or_false,
-          Bool.false_eq_true, if_false, Sub.deliver]
+        obtain ⟨hns, k, hk, hnear⟩ := hsub
+        have hk0 : k = 0 := by simpa using hk
+        subst hk0
+        have hS := Near_self (by simpa using hnear : Near p (subView p seed recv) (viewOf items) (viewOf items))
+        refine ⟨hs.1, viewOf (stepOp t items (.delete i)).1, trivial, rfl, hns, 0, Nat.le_refl _, ?_⟩
+        simp only [sysStep, List.isEmpty_nil, Bool.not_true, Sub.isSnapping, Bool.and_false, Bool.or_false,
+          Bool.false_eq_true, if_false, Sub.deliver, List.take_nil, fold_nil]
+        have hsp := stepOp_spec t hn (.delete i)
         cases hev : (stepOp t items (.delete i)).2 with
         | none =>
-          rw [hev] at hs
-          refine ⟨viewOf items, by simpa using hv, ?_⟩
-          rw [hs.2]
+          rw [hev] at hsp
+          simp only [Option.toList_none, List.append_nil]
+          rw [hsp.2, hS]
+          intro j; exact Or.inr rfl
         | some c =>
-          rw [hev] at hs
-          refine ⟨apply c (viewOf items), ?_, hs.2.2⟩
+          rw [hev] at hsp
           simp only [Option.toList_some]
-          exact deliver_step p seed recv _ c hv (stepOp_shaped t items _ c hev) (Or.inl hs.2.1)
+          rw [subView_snoc, deliver_wf p _ _ c hS hsp.2.1, hsp.2.2]
+          intro j; exact Or.inr rfl
   | snapshot =>
     cases sub with
-    | idle => exact ⟨hn, hG, rfl⟩
-    | snapping seed => exact ⟨hn, hG, hsub⟩
-    | listening seed recv => exact ⟨hn, hG, hsub⟩
+    | idle => exact ⟨hn, T, hwf, hfold, rfl⟩
+    | snapping seed => exact ⟨hn, T, hwf, hfold, hsub⟩
+    | listening seed recv => exact ⟨hn, T, hwf, hfold, hsub⟩
   | listen =>
     cases sub with
-    | idle => exact ⟨hn, hG, hsub⟩
-    | listening seed recv => exact ⟨hn, hG, hsub⟩
+    | idle => exact ⟨hn, T, hwf, hfold, hsub⟩
+    | listening seed recv => exact ⟨hn, T, hwf, hfold, hsub⟩
     | snapping seed =>
       simp only at hsub
       subst hsub
-      refine ⟨hn, hG, NodupKeys_filter _ hn, viewOf items, ?_, ?_⟩
-      · simp only [subView, List.filterMap_nil, fold_nil]
-        exact viewOf_itemSlice p items hn
-      · cases pend with
-        | none => rfl
-        | some c => exact ⟨(hG c rfl).2, Or.inr (hG c rfl).2⟩
+      show SubInv p ⟨items, pend, .listening (itemSlice p items) [], t⟩
+      refine ⟨hn, T, hwf, hfold, NodupKeys_filter _ hn, pend.length, Nat.le_refl _, ?_⟩
+      intro i
+      left
+      simp only [subView, List.filterMap_nil, fold_nil, List.take_length, hfold]
+      rw [viewOf_itemSlice p items hn]
 
 theorem sysRun_inv (p : Option (Pred ι μ)) (s : Sys ι μ) (sched : List (Step ι μ)) (h : SubInv p s) :
     SubInv p (sysRun true p s sched) := by
